@@ -354,7 +354,7 @@ def _rows_expr(e, f, env, grid):
         fresh = isinstance(elt, ast.Call) and dotted(elt.func) in ('list', 'copy.copy', 'copy.deepcopy') or \
             (isinstance(elt, ast.Subscript) and isinstance(elt.slice, ast.Slice) and elt.slice.lower is None and elt.slice.upper is None)
         return [RowTok(t.content, object() if fresh else t.obj) for t in inner]
-    if isinstance(e, ast.Subscript) and norm(e.value) == 'self.w' and isinstance(e.slice, ast.Slice):
+    if isinstance(e, ast.Subscript) and _is_grid(e.value) and isinstance(e.slice, ast.Slice):
         lo = _int_expr(e.slice.lower, f, env) if e.slice.lower is not None else 0
         hi = _int_expr(e.slice.upper, f, env) if e.slice.upper is not None else len(grid)
         if lo is None or hi is None:
@@ -367,7 +367,15 @@ def _one_row(x, f, env, grid):
     if isinstance(x, ast.Call) and dotted(x.func) in ('list', 'copy.copy', 'copy.deepcopy') and len(x.args) == 1:
         r = _one_row(x.args[0], f, env, grid)
         return None if r is None else RowTok(r.content, object())
-    if isinstance(x, ast.Subscript) and norm(x.value) == 'self.w' and not isinstance(x.slice, ast.Slice):
+    if isinstance(x, ast.Call) and isinstance(x.func, ast.Attribute) and x.func.attr == 'pop' and _is_grid(x.func.value) and len(x.args) <= 1 and not x.keywords:
+        # `w.pop(i)` as a value: the row leaves the grid and is handed on (the same list object)
+        i = _int_expr(x.args[0], f, env) if x.args else -1
+        if i is None:
+            return None
+        if not grid or not (-len(grid) <= i < len(grid)):
+            raise IndexError(norm(x))
+        return grid.pop(i)
+    if isinstance(x, ast.Subscript) and _is_grid(x.value) and not isinstance(x.slice, ast.Slice):
         i = _int_expr(x.slice, f, env)
         if i is None:
             return None
@@ -403,8 +411,11 @@ class _NotUnderstood(Exception):
     pass
 
 
+_GRID_ALIASES = set()          # locals of the routine under evaluation that hold the grid object (`w = self.w`)
+
+
 def _is_grid(e):
-    return norm(e) == 'self.w'
+    return norm(e) == 'self.w' or (isinstance(e, ast.Name) and e.id in _GRID_ALIASES)
 
 
 def _exec_grid_stmt(st, f, env, grid):
@@ -414,9 +425,24 @@ def _exec_grid_stmt(st, f, env, grid):
     if isinstance(st, ast.Pass):
         return
     if isinstance(st, ast.Assign) and len(st.targets) == 1 and isinstance(st.targets[0], ast.Name):
-        if _int_expr(st.value, f, env) is None:
+        if _is_grid(st.value):
+            _GRID_ALIASES.add(st.targets[0].id)          # w = self.w
+            return
+        if st.targets[0].id in _GRID_ALIASES or _int_expr(st.value, f, env) is None:
             raise _NotUnderstood(norm(st))
         return          # integer temporaries are inlined by lin()
+    if isinstance(st, ast.Assign) and len(st.targets) == 1 and isinstance(st.targets[0], ast.Subscript) and isinstance(st.targets[0].slice, ast.Slice) \
+            and st.targets[0].slice.lower is None and st.targets[0].slice.upper is None and st.targets[0].slice.step is None \
+            and isinstance(st.targets[0].value, ast.Subscript) and _is_grid(st.targets[0].value.value) and not isinstance(st.targets[0].value.slice, ast.Slice):
+        # w[i][:] = <row>: the cells of row i are overwritten in place -- the row keeps its list object and gets the other row's content
+        i = _int_expr(st.targets[0].value.slice, f, env)
+        r = _one_row(st.value, f, env, grid)
+        if i is None or r is None:
+            raise _NotUnderstood(norm(st))
+        if not (-len(grid) <= i < len(grid)):
+            raise IndexError(norm(st))
+        grid[i] = RowTok(r.content, grid[i].obj)
+        return
     if isinstance(st, ast.Assign) and len(st.targets) == 1 and isinstance(st.targets[0], ast.Subscript) and _is_grid(st.targets[0].value):
         tg = st.targets[0]
         if isinstance(tg.slice, ast.Slice):
@@ -515,6 +541,7 @@ def scroll_semantics(f, up):
         for start in range(1, rows + 1):
             for end in range(1, rows + 1):
                 env = {'rows': rows, 'start': start, 'end': end}
+                _GRID_ALIASES.clear()
                 grid = [RowTok(i, ('old', i)) for i in range(rows)]
                 where = 'with %d rows and scroll region %d..%d' % (rows, start, end)
                 try:
